@@ -1367,8 +1367,18 @@ class Emitter:
         skip_decl = lambda n: n.startswith('llvm.') or n == '__gxx_personality_v0'
         for name, f in s.m.functions.items():
             protos.append(('static ' if f.static else '') + s.proto(f.name, f.ret, [(pt, None) for (pt, _) in f.params], f.vararg) + ";")
+        # externals that an included model file defines keep the model's own (void*-typed) prototype
+        modeled = set()
+        for h in s.opts.get('include', []):
+            try:
+                for mm in re.finditer(r'^[A-Za-z_][\w \*]*?\b(x_\w+)\s*\(', open(h).read(), re.M):
+                    modeled.add(mm.group(1))
+            except OSError:
+                pass
         for name, (ret, params, vararg, attrs) in s.m.declares.items():
             if skip_decl(name):
+                continue
+            if s.fname(name) in modeled:
                 continue
             protos.append("extern " + s.proto(name, ret, [(pt, None) for (pt, _) in params], vararg) + ";")
         # globals
@@ -1404,9 +1414,9 @@ class Emitter:
         out += isa
         out += s.tydefs
         out += gdecl
+        out += [f"#include \"{h}\"" for h in s.opts.get('include', [])]
         out += protos
         out += sorted(s.cut_protos)
-        out += [f"#include \"{h}\"" for h in s.opts.get('include', [])]
         out += gl
         out += body
         # header for the native build that links the real (g++) wrapper object
